@@ -1,7 +1,7 @@
 //! C06: reading never panics, aborts or hangs, whatever bytes it is given.
 
 use crate::common::{self, Fail};
-use crate::driver::{norm_loc, norm_msg, watched, CaseOut, Ctx, Monitor, Tier, Watched};
+use crate::driver::{Lane, LaneKind, norm_loc, norm_msg, watched, CaseOut, Ctx, Monitor, Tier, Watched};
 use crate::iofault::{Policy, Src, Stats};
 use crate::mutate::{self, OPS};
 use crate::rng::Rng;
@@ -143,6 +143,13 @@ impl Monitor for C06 {
 	}
 	fn assumptions(&self) -> Vec<String> {
 		vec!["'all byte strings' is explored by structure-aware operators x positions; unreached reader branches carry no verdict".into(), "built with debug-assertions and overflow-checks on (as cargo test does): arithmetic overflow panics count".into(), "large-but-successful allocations are observations, not violations; allocation-failure aborts are inconclusive".into()]
+	}
+	fn lanes(&self, _tier: Tier) -> Vec<Lane> {
+		// Miri: 48 of the 324 (seed, operator) pairs per run, rotated by nothing but the list order
+		vec![
+			Lane { kind: LaneKind::AsanQuick, name: "asan-quick", shards: vec![0], nshards: 1 },
+			Lane { kind: LaneKind::Miri, name: "hostile", shards: (0..324).step_by(7).collect(), nshards: 324 },
+		]
 	}
 	fn n_cases(&self, ctx: &Ctx) -> usize {
 		self.n_mut_cases(ctx.tier) + self.n_fault_cases()
